@@ -6,6 +6,10 @@ import (
 	"ti/base"
 	"ti/builtin"
 	"ti/cmd"
+	"ti/context"
+	"ti/lexer"
+	"ti/lexer/reader"
+	"ti/parser"
 	"ti/verifapi"
 )
 
@@ -1623,4 +1627,82 @@ func VerifDeterminism(n int) {
 	} else {
 		verifapi.Assert(outA == outB, "C05-same-output")
 	}
+}
+
+// ---- C18: preloaded files ----
+
+// verifRunPreload runs the rounds exactly as main does for a target file with preload files:
+// cleanSimpleIdentifires, preload(round), evaluationLoop(target).
+func verifRunPreload(src string) string {
+	flags := cmd.NewExecuteFlags()
+	os.Args = []string{"ti", "./a.rb"}
+	verifapi.CatchExit(func() {
+		for _, round := range context.GetRounds() {
+			p := parser.New(lexer.New(reader.VerifNew([]rune(src))), "./a.rb")
+			cmd.ApplyParserFlags(&p)
+			cleanSimpleIdentifires()
+			preload(round, flags)
+			evaluationLoop(p, flags, round, false)
+		}
+	})
+	return verifapi.TakeStdout()
+}
+
+var verifPreloadSkels = []struct {
+	name   string
+	chunks []string // top-level statement groups; a split keeps chunk boundaries
+}{
+	{"class-then-use", []string{"class Aa\ndef foo\nSym.a\nend\nend\n", "class Bb < Aa\ndef bar\nfoo\nend\nend\n", "o = Bb.new\ndbtp o.foo\ndbtp o.bar\nundefined_fn(1)\n"}},
+	{"helper-method", []string{"def helper(v)\nv\nend\n", "x = helper(Sym.a)\n", "dbtp x\ny = helper(1)\ndbtp y\n"}},
+	{"diagnostic-in-preloaded-part", []string{"z = 1 + \"s\"\nnope_fn(2)\n", "w = Sym.a\n", "dbtp w\ndbtp z\n"}},
+}
+
+// VerifPreload: the program is split at top-level statement boundaries into 1 or 2 preload
+// files plus a target; the output must equal the output for the concatenation restricted to
+// the target's lines (rows rebased), and no line may name a preload file.
+func VerifPreload(n int) {
+	sk := verifPreloadSkels[verifapi.Concrete(verifapi.Int("skeleton", 0, len(verifPreloadSkels)-1))]
+	split := verifapi.Concrete(verifapi.Int("split", 0, 2)) // 0: [c0] | c1+c2 ; 1: [c0+c1] | c2 ; 2: [c0],[c1] | c2
+	s := verifInstallSym("a")
+	verifapi.WitnessList("Sym.a", verifKN(s.ka))
+	var pre []string
+	target := ""
+	switch split {
+	case 0:
+		pre, target = []string{sk.chunks[0]}, sk.chunks[1]+sk.chunks[2]
+	case 1:
+		pre, target = []string{sk.chunks[0] + sk.chunks[1]}, sk.chunks[2]
+	case 2:
+		pre, target = []string{sk.chunks[0], sk.chunks[1]}, sk.chunks[2]
+	}
+	whole := ""
+	for _, p := range pre {
+		whole += p
+	}
+	preLines := verifCountLines(whole)
+	whole += target
+	verifapi.Witness("whole", whole)
+	verifapi.Witness("target", target)
+	verifapi.Witness("pre0", pre[0])
+	loaderJSON := "{\"preload\": [\"p0.rb\"]}"
+	if len(pre) == 2 {
+		verifapi.Witness("pre1", pre[1])
+		loaderJSON = "{\"preload\": [\"p0.rb\", \"p1.rb\"]}"
+	}
+	verifapi.Witness("C18.prelines", verifItoa(preLines))
+	mark := verifapi.Snapshot()
+	outWhole := verifRun(whole)
+	verifapi.Restore(mark)
+	verifapi.SetFile(".ti-loader.json", loaderJSON)
+	verifapi.SetFile("p0.rb", pre[0])
+	if len(pre) == 2 {
+		verifapi.SetFile("p1.rb", pre[1])
+	}
+	outSplit := verifRunPreload(target)
+	verifapi.Reach("ran")
+	shape := sk.name + "/" + []string{"one-preload-file-short", "one-preload-file-long", "two-preload-files"}[split]
+	verifapi.Classify("C18/output-names-a-preload-file/" + shape)
+	verifapi.Assert(!strings.Contains(outSplit, "p0.rb") && !strings.Contains(outSplit, "p1.rb"), "C18-hidden")
+	verifapi.Classify("C18/output-differs-from-concatenation-restricted-to-target/" + shape)
+	verifapi.Assert(outSplit == verifDropShift(outWhole, 1, preLines), "C18-prefix")
 }
